@@ -25,12 +25,15 @@ def run(model, rep, tier):
     r8_noise_tolerance(ctx, rep)
     from . import c12
     c12.r3_accumulators(ctx, rep, R='C07.R7')
+    from . import c02 as _c02
+    _c02.accumulator_roles_through_calls(ctx, rep, 'C07.R7')
     # nothing lost: the parent waits for every child before it uses the totals -- a thread leaves
     # the set of running threads only when it is the one found dead, and the polling loop runs
     # until nothing is ready or running (the obligations of the -j scheduling loop, shared with C06)
     from . import c06
     c06.r1_bounded_start(ctx, rep, R='C07.R9')
     r10_report_only_after_completed_run(ctx, rep)
+    r11_nothing_printed_after_the_report(ctx, rep)
     rep.units['cfg'] = ctx.cfg_stats
 
 
@@ -849,3 +852,101 @@ def r10_report_only_after_completed_run(ctx, rep, R='C07.R10'):
               'dies of SystemExit / KeyboardInterrupt / MemoryError in a layer hook still sends a '
               'complete, well-formed report and the parent trusts it (no error for the layer)',
               key='report-after-abort', func=fi.qualname, where=ctx.where(fi, fi.node), path=path)
+
+
+# ---------------------------------------------------------------------------------------------
+# R11 -- once the child has closed stdout for its report, no later report hook prints
+
+def r11_nothing_printed_after_the_report(ctx, rep, R='C07.R11'):
+    rep.rule(R, 'the child\'s report is the last thing the report phase does with output: the feature '
+             'whose report() closes sys.stdout (SubProcess) is registered after every feature whose '
+             'report() can print in a child; for the features registered after it, every formatter / '
+             'print call of report() is unreachable in a child (guards evaluated with resume_layer '
+             'set, do_run_tests true, exactly one layer run, no --list-tests).  A print on the closed '
+             'stream raises ValueError inside Runner.run: the report hooks that follow are skipped, '
+             'the XML reports of that layer are never written and the child ends with a traceback')
+    from sa.variance import eval_guard, UNKNOWN
+    from .common import guard_literals
+    from . import c11
+    m = ctx.model
+    fi, order = c11.feature_order(ctx)
+    closers = []
+    classes = {}
+    for c in m.all_classes() if hasattr(m, 'all_classes') else [c for mod in m.modules.values() for c in mod.classes.values()]:
+        classes.setdefault(c.name, c)
+        rp = c.methods.get('report')
+        if rp is not None and any(
+                isinstance(x, ast.Call) and isinstance(x.func, ast.Attribute) and x.func.attr == 'close' and
+                (m.resolve_dotted(rp.module, dotted(x.func.value)) or '') == 'sys.stdout'
+                for x in ast.walk(rp.node)):
+            closers.append(c.name)
+    ok = len(closers) == 1 and closers[0] in order
+    rep.check(ok, R, 'one feature closes sys.stdout in report(): %s' % closers,
+              'expected exactly one registered feature whose report() closes sys.stdout, found %s' % closers,
+              key='after-report:closer', func=fi.qualname, where=ctx.where(fi, fi.node))
+    if not ok:
+        return
+    fr = m.func('runner.Runner.run')
+    rl = [n for n in ast.walk(fr.node) if isinstance(n, ast.For) and any(
+        isinstance(c, ast.Call) and isinstance(c.func, ast.Attribute) and c.func.attr == 'report'
+        for c in ast.walk(n))]
+    fwd = len(rl) == 1 and dotted(rl[0].iter) == 'self.features'
+    rep.check(fwd, R, 'Runner.run calls report() in registration order',
+              'report() is not called over self.features in order', key='after-report:loop',
+              func=fr.qualname, where=ctx.where(fr, rl[0] if rl else fr.node))
+    if not fwd:
+        return
+    later = order[order.index(closers[0]) + 1:]
+
+    def child_env(expr):
+        env = {}
+        for x in ast.walk(expr):
+            d = dotted(x)
+            if not d:
+                continue
+            if d.endswith('options.resume_layer'):
+                env[norm(x)] = 'layer'
+            elif d.endswith('do_run_tests'):
+                env[norm(x)] = True
+            elif d.endswith('layers_run'):
+                env[norm(x)] = 1
+            elif d.endswith('options.list_tests'):
+                env[norm(x)] = False
+        return env
+    n = 0
+    for name in later:
+        c = classes.get(name)
+        rp = m.find_method(c, 'report') if c is not None else None
+        if rp is None or rp.cls is None or rp.cls.qualname == 'feature.Feature':
+            continue
+        # a feature that is only active with an option a child never has
+        init = c.methods.get('__init__')
+        inactive = False
+        if init is not None:
+            for x in ast.walk(init.node):
+                if isinstance(x, ast.Assign) and any(dotted(t) == 'self.active' for t in x.targets):
+                    v = eval_guard(x.value, child_env(x.value))
+                    inactive = v is not UNKNOWN and not v
+        n += 1
+        prints = []
+        for x in own_calls(rp.node):
+            is_out = (isinstance(x.func, ast.Attribute) and ctx.cg.is_formatter_receiver(x.func.value, rp)) or \
+                (dotted(x.func) == 'print' and (kw(x, 'file') is None or
+                                                 (m.resolve_dotted(rp.module, dotted(kw(x, 'file'))) or '') == 'sys.stdout')) or \
+                (isinstance(x.func, ast.Attribute) and x.func.attr in ('write', 'writelines') and
+                 (m.resolve_dotted(rp.module, dotted(x.func.value)) or '') == 'sys.stdout')
+            if not is_out:
+                continue
+            reach = True
+            for e, pos in guard_literals(ctx, rp, x):
+                v = eval_guard(e, child_env(e))
+                if v is not UNKNOWN and bool(v) != pos:
+                    reach = False
+            if reach:
+                prints.append(x)
+        rep.check(inactive or not prints, R, '%s.report() (after %s) prints nothing in a child' % (name, closers[0]),
+                  '%s is registered after %s, whose report() closes sys.stdout in a layer subprocess, '
+                  'but its report() can still print there (%s): ValueError on the closed stream ends '
+                  'the child\'s report phase' % (name, closers[0], '; '.join(norm(p_)[:50] for p_ in prints[:2])),
+                  key='after-report:' + name, func=rp.qualname, where=ctx.where(rp, prints[0] if prints else rp.node))
+    rep.floor(R, n, 2, 'report hooks after the child\'s report')
